@@ -8,6 +8,7 @@ import (
 	"runtime"
 	"sort"
 	"strconv"
+	"strings"
 	"sync"
 	"time"
 
@@ -33,6 +34,7 @@ func init() {
 	}
 	workers["lang"] = langWorker
 	replays["langmc"] = langReplay
+	replays["langmc-c07bin"] = fmtBinaryReplay
 }
 
 type langShardResult struct {
@@ -292,8 +294,8 @@ func langCheck(prop, tier string) int {
 		total.Outcomes["shard-abandoned-after-200-crashes"]++
 		mu.Unlock()
 	})
-	if prop == "C07" {
-		n, loaded := c07Binary(run)
+	if prop == "C07" || prop == "C11" || prop == "C15" {
+		n, loaded := fmtBinary(run, prop)
 		run.Set("binary_fmt_invocations", n)
 		run.Set("binary_fmt_rewrites_checked", loaded)
 	}
@@ -451,57 +453,118 @@ func replay(path string) int {
 	return fn(path)
 }
 
-// c07Binary: the formatter as the user reaches it. `spok --fmt` parses, LOADS the file
-// (evaluating builtins, building tasks) and then prints the tree; anything the load
-// step does to the tree shows up here and nowhere else. For every pair of reduced
-// statements plus a few hand-written files: run `spok --fmt` on it in a sandbox and
-// apply C07's oracle to (text before, file after).
-func c07Binary(run *ev.Run) (int64, int64) {
-	var texts []string
-	texts = append(texts, lang.CanonicalBases(lang.ReducedStatements(false), 1, 0)...)
-	texts = append(texts, lang.CanonicalBases(lang.ReducedStatements(false), 2, 0)...)
-	texts = append(texts,
+// fmtBinary: the formatter as the user reaches it. `spok --fmt` parses, LOADS the file
+// (file.New) and only then writes tree.String() over it; anything the in-place rewrite adds
+// to the library formatter, and anything the load step does to the tree it shares with the
+// formatter, shows here and nowhere else. Every text of a small corpus - in the layout given,
+// with tab indentation and with CRLF line ends - is formatted in place by the built binary;
+// prop selects the oracle: C07 same statements, C15 same comments and docstrings, C11 a
+// second --fmt leaves the file byte-identical.
+func fmtBinary(run *ev.Run, prop string) (int64, int64) {
+	var base []string
+	base = append(base, lang.CanonicalBases(lang.ReducedStatements(false), 1, 0)...)
+	base = append(base, lang.CanonicalBases(lang.ReducedStatements(false), 2, 0)...)
+	base = append(base,
 		"BIN := \"bin/x\"\n# Builds\ntask build(lint, \"**/*.go\", \"go.mod\") -> (BIN, \"build.log\") {\n    go build ./...\n}\n\ntask lint(\"**/*.go\") {\n    echo lint\n}\n",
 		"OUT := join(\"a\", \"b\")\ntask a(b, \"x\", c, \"y\") -> (\"o\", OUT, \"p\") { echo {{.OUT}} }\ntask b() {}\ntask c() {}\n",
 		"V := exec(\"echo hi\")\nW := \"w\"\ntask t(\"*.md\", u) -> W {\n    echo {{.V}} {{.W}}\n}\ntask u(\"a\", \"b\", \"c\", \"d\") {}\n",
+		// runs of spaces and tabs inside comments, docstrings, strings and commands
+		"# target    what it does\n# ------    ------------\n# build     compiles   everything\nNAME := \"a    b\"\n\n# Builds    the     thing\ntask build(\"x    y.txt\") -> \"out    dir\" {\n    echo a    b\n    echo '    indented'\n}\n",
+		"# col\tcol\tcol\nTAB := \"a\tb\"\n\n# doc\twith\ttabs\ntask t(\"a\tb\") {\n    printf 'x\\ty'\t\"z\"\n}\n",
+		"#    leading spaces in a comment\n#\tleading tab\n# trailing spaces    \nA := \"x\"\n\n#     Doc indented\ntask t() {\n        echo deeper\n    echo normal\n}\n# last    comment",
+		"# one\n\n# two\nA := \"1\"\n# three\n\n# four    is a docstring\ntask t() {\n    echo {{.A}}    {{.A}}\n}\n\n# five\n",
 	)
+	var texts []string
+	seen := map[string]bool{}
+	for _, b := range base {
+		for _, v := range []string{b, strings.ReplaceAll(b, "\n    ", "\n\t"), strings.ReplaceAll(b, "\n", "\r\n"), strings.ReplaceAll(strings.ReplaceAll(b, "\n    ", "\n\t"), "\n", "\r\n")} {
+			if !seen[v] {
+				seen[v] = true
+				texts = append(texts, v)
+			}
+		}
+	}
 	var mu sync.Mutex
 	var n, rewritten int64
 	pool.Parallel(len(texts), func(i int) {
 		root := filepath.Join(pool.Scratch, fmt.Sprintf("c07bin.%d", i%64))
 		c07SlotMu[i%64].Lock()
-		defer c07SlotMu[i%64].Unlock()
-		t := bin.Tree{Root: root}
-		t.Reset()
-		proj := t.Mkdir("home/w/proj")
-		path := t.File("home/w/proj/spokfile", texts[i])
-		o := bin.Run(proj, filepath.Join(root, "home"), nil, "--fmt")
+		v, after, ran, loaded := fmtBinaryOne(root, texts[i], prop)
+		c07SlotMu[i%64].Unlock()
 		mu.Lock()
-		n++
+		n += ran
+		if loaded {
+			rewritten++
+		}
 		mu.Unlock()
-		if o.Died() {
-			run.Report(ev.Violation{Key: "fmt-binary " + strconv.Quote(texts[i]), Class: "process-crash", What: fmt.Sprintf("spok --fmt died on %s: %s", strconv.Quote(texts[i]), firstLines(o.Stderr, 3)), Case: map[string]any{"input": texts[i]}})
-			return
-		}
-		after, _ := os.ReadFile(path)
-		if o.Exit != 0 || string(after) == texts[i] {
-			return // did not load (C19 checks it stays untouched) or already canonical
-		}
-		mu.Lock()
-		rewritten++
-		mu.Unlock()
-		t1, e1 := parser.New(texts[i]).Parse()
-		if e1 != nil {
-			return
-		}
-		t2, e2 := parser.New(string(after)).Parse()
-		v := lang.CheckC07(lang.FmtResult{Parsed: true, T1: t1, S1: string(after), T2: t2, Err2: e2})
 		if v != nil {
 			run.Report(ev.Violation{Engine: "langmc-c07bin", Key: "fmt-binary " + strconv.Quote(texts[i]), Class: v.Class + "-through-spok-fmt",
-				What: fmt.Sprintf("`spok --fmt` on %s wrote %s: %s", strconv.Quote(texts[i]), strconv.Quote(string(after)), v.What), Case: map[string]any{"input": texts[i]}})
+				What: fmt.Sprintf("`spok --fmt` on %s wrote %s: %s", strconv.Quote(texts[i]), strconv.Quote(after), v.What), Case: map[string]any{"input": texts[i], "prop": prop}})
 		}
 	})
 	return n, rewritten
+}
+
+// fmtBinaryOne formats one text in place with the built binary and applies prop's oracle.
+func fmtBinaryOne(root, text, prop string) (v *lang.Verdict, after string, ran int64, loaded bool) {
+	t := bin.Tree{Root: root}
+	t.Reset()
+	proj := t.Mkdir("home/w/proj")
+	path := t.File("home/w/proj/spokfile", text)
+	o := bin.Run(proj, filepath.Join(root, "home"), nil, "--fmt")
+	ran++
+	if o.Died() {
+		return &lang.Verdict{Class: "process-crash", What: fmt.Sprintf("spok --fmt died: %s", firstLines(o.Stderr, 3))}, "", ran, false
+	}
+	ab, _ := os.ReadFile(path)
+	after = string(ab)
+	if o.Exit != 0 {
+		return nil, after, ran, false // did not load (C19 checks it stays untouched)
+	}
+	t1, e1 := parser.New(text).Parse()
+	if e1 != nil {
+		return nil, after, ran, false
+	}
+	t2, e2 := parser.New(after).Parse()
+	r := lang.FmtResult{Parsed: true, T1: t1, S1: after, T2: t2, Err2: e2}
+	switch prop {
+	case "C07":
+		v = lang.CheckC07(r)
+	case "C15":
+		v = lang.CheckC15(r)
+	case "C11":
+		o2 := bin.Run(proj, filepath.Join(root, "home"), nil, "--fmt")
+		ran++
+		again, _ := os.ReadFile(path)
+		if o2.Exit != 0 || o2.Died() {
+			v = &lang.Verdict{Class: "second-fmt-fails", What: fmt.Sprintf("the second --fmt exits %d: %s", o2.Exit, firstLines(o2.Stderr, 2))}
+		} else if string(again) != after {
+			v = &lang.Verdict{Class: "not-idempotent", What: fmt.Sprintf("the second --fmt turned it into %s", strconv.Quote(string(again)))}
+		}
+	}
+	return v, after, ran, true
+}
+
+func fmtBinaryReplay(path string) int {
+	var v ev.Violation
+	data, _ := os.ReadFile(path)
+	json.Unmarshal(data, &v)
+	text, _ := v.Case["input"].(string)
+	prop, _ := v.Case["prop"].(string)
+	if prop == "" {
+		prop = v.Property
+	}
+	root := filepath.Join(pool.Scratch, "replay")
+	os.MkdirAll(root, 0o755)
+	fmt.Printf("replaying spok --fmt (%s) on %s\n", prop, strconv.Quote(text))
+	vd, after, _, _ := fmtBinaryOne(root, text, prop)
+	fmt.Printf("file afterwards: %s\n", strconv.Quote(after))
+	if vd != nil {
+		fmt.Printf("VIOLATION property=%s replay=%s\n  %s: %s\n", v.Property, path, vd.Class, vd.What)
+		return 1
+	}
+	fmt.Println("no violation on replay")
+	return 0
 }
 
 var c07SlotMu [64]sync.Mutex
